@@ -84,14 +84,14 @@ Definition check_c11 (args : list sx) : verdict :=
               | Invalid => (bs "invalid", refused)
               | Unspecified => (bs "unspecified", true)
               end in
-          (* the two accepted deviations from the grammar (findings) *)
-          let kf :=
-            if ok then []
-            else (if fold_trap arg then [bs "C11-unicode-fold"] else [])
-                 ++ (if flag_with_value arg then [bs "C11-flag-value"] else []) in
-          mkV true agree model (if ok then [] else [bs "C11"]) kf
+          (* no known finding: the two former deviations (Unicode-folded
+             keywords, valued SMTPUTF8 / REQUIRETLS) are repaired; such lines
+             are tagged for the input distribution and judged like any other *)
+          mkV true agree model (if ok then [] else [bs "C11"]) []
               ([cls_tag; if rcpt then bs "rcpt" else bs "mail"]
                ++ c11_kinds arg
+               ++ (if fold_trap arg then [bs "u017f-u0131"] else [])
+               ++ (if flag_with_value arg then [bs "flag-with-value"] else [])
                ++ (if nondet then [bs "nondet-param-order"] else [])
                ++ (if sx_is "none" ocb then [] else [bs "callback"]))
       | _, _, _, _ => bad_case
